@@ -28,7 +28,7 @@ import (
 
 type c13Case struct {
 	State  string // zk-blocked meta-unanswered probe-unanswered dial-hanging retry-backoff lookup-backoff send-queue-busy server-silent
-	Entry  string // get get-unbatched batch batch-call-ctx scan
+	Entry  string // get get-unbatched batch batch-ctx-only batch-call-ctx scan scan-continuation
 	Expire bool   // deadline expiry instead of cancel
 	Seed   int64
 }
@@ -102,7 +102,8 @@ func runC13Case(c *fw.Ctx, id string, cs c13Case) {
 		if cs.Entry == "scan-continuation" {
 			// the opening request is answered normally; the state applies to the
 			// continuation (scanner id set)
-			return req.Scan != nil && req.Scan.ScannerId != nil && !req.Scan.GetCloseScanner() && cl.ScanOpID(req) != ""
+			// (a silent or refusing server treats the close request like any other)
+			return req.Scan != nil && req.Scan.ScannerId != nil && cl.ScanOpID(req) != ""
 		}
 		return req.Scan != nil && cl.ScanOpID(req) != ""
 	}
@@ -272,13 +273,19 @@ func runC13Case(c *fw.Ctx, id string, cs c13Case) {
 		case "get", "get-unbatched":
 			g, _ := hrpc.NewGetStr(callCtx, "t", key, hrpc.Families(map[string][]string{"echo": {opid}}))
 			_, r.err = client.Get(g)
-		case "batch", "batch-call-ctx":
+		case "batch", "batch-call-ctx", "batch-ctx-only":
 			other := base
 			if cs.Entry == "batch" {
 				other = ctx
 			}
+			g2ctx := callCtx
+			if cs.Entry == "batch-ctx-only" {
+				// the calls carry no deadline of their own: only the context given to
+				// SendBatch ends
+				g2ctx = base
+			}
 			g1, _ := hrpc.NewGetStr(other, "t", "a1", hrpc.Families(map[string][]string{"echo": {opid + "-a"}}))
-			g2, _ := hrpc.NewGetStr(callCtx, "t", key, hrpc.Families(map[string][]string{"echo": {opid}}))
+			g2, _ := hrpc.NewGetStr(g2ctx, "t", key, hrpc.Families(map[string][]string{"echo": {opid}}))
 			calls := []hrpc.Call{g1, g2}
 			if cs.Entry == "batch-call-ctx" && (cs.State == "zk-blocked" || cs.State == "meta-unanswered" || cs.State == "lookup-backoff") {
 				// in these states a bystander call with a live context cannot
@@ -401,7 +408,7 @@ func init() {
 		},
 		Run: func(c *fw.Ctx) {
 			states := []string{"zk-blocked", "meta-unanswered", "probe-unanswered", "dial-hanging", "retry-backoff", "lookup-backoff", "send-queue-busy", "server-silent"}
-			entries := []string{"get", "get-unbatched", "batch", "batch-call-ctx", "scan", "scan-continuation"}
+			entries := []string{"get", "get-unbatched", "batch", "batch-ctx-only", "batch-call-ctx", "scan", "scan-continuation"}
 			var cases []c13Case
 			reps := c.Pick(1, 20)
 			r := c.Rand("c13")
